@@ -22,7 +22,7 @@ ASSUMPTIONS = [
     "remotes emulated by a non-local FileSystem over local disk",
 ]
 MONITORS = "os.walk listings of every remote/cache before and after vs independently computed reachable/designated sets; pushed/failed counts vs objects that newly appeared; workspace walk after checkout"
-REQUIRED_COUNTERS = ["cases_with_verifying_remotes", "cases_with_an_empty_prefix", "remote_loss_rounds", "remote_objects_lost", "fetches_from_read_only_remotes", "collect_given_a_view", "layout/tops-only", "layout/root+deep", "layout/root+tops", "lazy_index_cases", "pushes", "fetches", "failure_rounds", "retries", "checkouts_from_fetched_cache", "multi_prefix_cases", "role_fallback_checks",
+REQUIRED_COUNTERS = ["fetches_followed_through_a_callback", "cases_with_verifying_remotes", "cases_with_an_empty_prefix", "remote_loss_rounds", "remote_objects_lost", "fetches_from_read_only_remotes", "collect_given_a_view", "layout/tops-only", "layout/root+deep", "layout/root+tops", "lazy_index_cases", "pushes", "fetches", "failure_rounds", "retries", "checkouts_from_fetched_cache", "multi_prefix_cases", "role_fallback_checks",
                      "objects_designation_checked", "shared_cache_cases", "exhaustive_subset_cases", "remote_index_cases"]
 
 
@@ -363,7 +363,14 @@ def run_shard(ctx):
                 res.count("fetches_from_read_only_remotes")
             if lazy:
                 idx2 = lazify(idx2, fresh, read_only_remotes=ro_fetch)
-            fetched, ffailed = fetch(collect([handed(idx2)], "remote"))
+            fkw = {}
+            if rng.random() < 0.3:
+                # the caller follows the fetch through a progress callback of its own
+                from fsspec.callbacks import Callback as _CB
+
+                fkw = {"callback": _CB()}
+                res.count("fetches_followed_through_a_callback")
+            fetched, ffailed = fetch(collect([handed(idx2)], "remote"), **fkw)
             cstate = {n: store_snapshot(o.path) for n, o in fresh.items()}
             if ffailed:
                 res.violation("fetch-reports-failures", f"fault-free fetch reported failed={ffailed}", case=case, detail=cfg)
